@@ -408,3 +408,40 @@ def cell_origin(evs, cell):
             if isinstance(a, tuple) and a and a[0] == "ref":
                 return a[1]
     return None
+
+
+IMPURE_PREFIX = ("std::time", "std::env", "std::io", "std::fs", "std::net", "std::process", "std::thread", "std::sync", "std::cell", "std::hash::RandomState", "std::collections::hash_map::RandomState")
+
+
+def impure_constructs(b):
+    """what makes a function body more than a function of its arguments: statics, thread-locals, clocks / IO / interior
+    mutability from std, unsafe code, inline asm (names, for the report)"""
+    bad = []
+    if b.j.get("unsafe"):
+        bad.append("unsafe fn")
+    for ub in b.j.get("unsafe_blocks", []):
+        if ub.get("source") != "CompilerGenerated":
+            bad.append("unsafe block")
+    for bb, blk in enumerate(b.blocks):
+        if blk["cleanup"]:
+            continue
+        if blk["term"]["k"] == "asm":
+            bad.append("inline asm")
+        for s in blk["stmts"]:
+            if s["k"] == "assign":
+                rv = s["rv"]
+                if rv["k"] == "tlref":
+                    bad.append("thread-local")
+                for o in [rv.get("op"), rv.get("a"), rv.get("b")] + list(rv.get("ops", [])):
+                    if isinstance(o, dict) and o.get("k") == "const" and "static" in o:
+                        bad.append("static")
+        t = blk["term"]
+        if t["k"] == "call" and "indirect" not in t["fn"]:
+            p = (t["fn"].get("resolved") or t["fn"]).get("path") or ""
+            p2 = t["fn"].get("path") or ""
+            if p.startswith(IMPURE_PREFIX) or p2.startswith(IMPURE_PREFIX) or "SystemTime" in p or "Instant" in p:
+                bad.append("call %s" % (p or p2))
+            for a in t["args"]:
+                if a.get("k") == "const" and "static" in a:
+                    bad.append("static")
+    return sorted(set(bad))
